@@ -30,8 +30,8 @@ type workload struct {
 	Adds  map[int][][2]string
 	Reads map[int]string // request index -> collection (or object) id whose members are read
 	// ReadMember: for object reads, which member holds the collection ("likes"/"shares"/"")
-	ReadMember map[int][]string
-	DupActivity string // activity id delivered several times ("" if none)
+	ReadMember     map[int][]string
+	DupActivity    string // activity id delivered several times ("" if none)
 	ExpectDeadlock bool
 	OutboxIDs      bool // ids are issued per run: compare the outbox with the returned Location headers
 	seqOutcomes    []map[string][]string
